@@ -37,12 +37,12 @@ View == <<scr, files>>
 Handles == {"train", "test"}
 
 \* pid / npl cache the plate ids of the rows (recomputed whenever the row set changes: they are derived data)
-Dead == [live |-> FALSE, rows |-> << >>, mask |-> << >>, val |-> << >>, smap |-> << >>, tmap |-> << >>, pid |-> << >>, npl |-> 0]
+Dead == [live |-> FALSE, rows |-> << >>, mask |-> << >>, val |-> << >>, smap |-> << >>, tmap |-> << >>, pl |-> << >>, pid |-> << >>, npl |-> 0]
 
 (* ---------------- derived attributes of a screen ---------------- *)
 Pos(s) == 1..Len(s.rows)
 SampleName(s, x) == Fix.rows[s.rows[x]].s
-PlateName(s, x) == Fix.rows[s.rows[x]].p
+PlateName(s, x) == s.pl[x]                 \* the plate label of a row can change (Plate.merge relabels rows in place)
 Treat(s, x) == Fix.rows[s.rows[x]].t
 PlateEnc(s) == Encode1([x \in Pos(s) |-> PlateName(s, x)])
 PlateIds(s) == s.pid
@@ -77,17 +77,18 @@ Proj(s) == IF ~s.live THEN [live |-> FALSE]
 Keep(s, keep) ==   \* keep: set of positions, order preserved
     LET idx == SetToSortSeq(keep, <) IN
     LET rr == [y \in 1..Len(idx) |-> s.rows[idx[y]]]
-        pe == Encode1([y \in 1..Len(rr) |-> Fix.rows[rr[y]].p])
+        pp == [y \in 1..Len(idx) |-> s.pl[idx[y]]]
+        pe == Encode1(pp)
     IN [live |-> TRUE, rows |-> rr, mask |-> [y \in 1..Len(idx) |-> s.mask[idx[y]]],
         val |-> [y \in 1..Len(idx) |-> s.val[idx[y]]], smap |-> s.smap, tmap |-> s.tmap,
-        pid |-> pe.ids, npl |-> Len(pe.mapping)]
+        pl |-> pp, pid |-> pe.ids, npl |-> Len(pe.mapping)]
 
 (* ---------------- initial state: the prepared simulation ---------------- *)
 Prepared ==
     LET rows == [x \in 1..NR |-> x]
         stack == Stack([x \in 1..NR |-> Fix.rows[x].t], Arity)
         pe == Encode1([x \in 1..NR |-> Fix.rows[x].p])
-    IN [live |-> TRUE, rows |-> rows, pid |-> pe.ids, npl |-> Len(pe.mapping),
+    IN [live |-> TRUE, rows |-> rows, pl |-> [x \in 1..NR |-> Fix.rows[x].p], pid |-> pe.ids, npl |-> Len(pe.mapping),
         mask |-> [x \in 1..NR |-> Fix.rows[x].p \in {Fix.obs[y] : y \in 1..Len(Fix.obs)}],
         val |-> [x \in 1..NR |-> Fix.rows[x].v],
         smap |-> Mapping1([x \in 1..NR |-> Fix.rows[x].s]),
@@ -144,6 +145,19 @@ SetObserved(h, P) ==
                                                  !.val = [x \in Pos(scr[h]) |-> IF x \in sel THEN Fix.newval + x ELSE scr[h].val[x]]]]
     /\ Log([op |-> "set_observed", h |-> h, P |-> SetToSortSeq(P, <)]) /\ UNCHANGED files
 
+\* Plate.merge (used by the merge smoothers): plates a and b become one plate IN PLACE, plate ids are re-derived
+MergePlates(h, a, b) ==
+    /\ scr[h].live /\ a \in 0..NPlates(scr[h]) - 1 /\ b \in 0..NPlates(scr[h]) - 1 /\ a # b
+    /\ PlateObserved(scr[h], a) = PlateObserved(scr[h], b)           \* (merging across observation status is outside the model)
+    /\ LET s == scr[h]
+           both == {x \in Pos(s) : s.pid[x] \in {a, b}}
+           \* Plate.merge reads plate_name AFTER uniting the selections: the label of the first row of the union wins
+           name == s.pl[CHOOSE x \in both : \A y \in both : x <= y]
+           pp == [x \in Pos(s) |-> IF x \in both THEN name ELSE s.pl[x]]
+           pe == Encode1(pp) IN
+       scr' = [scr EXCEPT ![h] = [s EXCEPT !.pl = pp, !.pid = pe.ids, !.npl = Len(pe.mapping)]]
+    /\ Log([op |-> "merge", h |-> h, a |-> a, b |-> b]) /\ UNCHANGED files
+
 (* ---------------- persistence ---------------- *)
 Save(h, p) == /\ scr[h].live /\ files' = [files EXCEPT ![p] = scr[h]]
               /\ Log([op |-> "save", h |-> h, p |-> p]) /\ UNCHANGED scr
@@ -164,12 +178,13 @@ RevealAny == \E h \in Handles : scr[h].live /\ \E S \in SUBSET (-1..NPlates(scr[
 MaskAny == \E h \in Handles : Mask(h)
 UnmaskAny == \E h \in Handles : Unmask(h)
 SetObservedAny == \E h \in Handles : scr[h].live /\ \E P \in SUBSET (0..NPlates(scr[h]) - 1) : SetObserved(h, P)
+MergePlatesAny == \E h \in Handles : scr[h].live /\ \E a, b \in 0..NPlates(scr[h]) - 1 : MergePlates(h, a, b)
 SaveAny == \E h \in Handles, p \in Paths : Save(h, p)
 LoadAny == \E h \in Handles, p \in Paths : Load(p, h)
 CliRevealAny == \E p, q \in Paths : files[p].live /\ \E S \in SUBSET (0..NPlates(files[p])) : CliReveal(p, q, S)
 CliMetaAny == \E p \in Paths : CliMeta(p)
 
-Next == SplitAny \/ RevealAny \/ MaskAny \/ UnmaskAny \/ SetObservedAny \/ SaveAny \/ LoadAny \/ CliRevealAny \/ CliMetaAny
+Next == SplitAny \/ RevealAny \/ MaskAny \/ UnmaskAny \/ SetObservedAny \/ MergePlatesAny \/ SaveAny \/ LoadAny \/ CliRevealAny \/ CliMetaAny
 Spec == Init /\ [][Next]_vars
 Bound == Len(hist) <= MaxDepth
 \* keep observation-only and refused steps from inflating the exploration: at most one in a row
